@@ -79,7 +79,7 @@ def main():
     for p in PENDING:
         if p not in have:
             na.append({"property_id": p, "reason": "check not registered yet in this revision (harness under construction; see DESIGN.md)"})
-    m = {"version": 1, "setup_cmd": "bin/ensure-env",
+    m = {"version": 1, "setup_cmd": "bin/ensure-env && bin/validate-shim",
          "hooks": {"guard": "DFOLS_VERIF", "enable": "no hooks in /repo: the engine reads /repo/dfols/*.py (AST) on every run and the replays import the real package",
                    "baseline_off_cmd": "cd /repo && /venv/bin/python -m pytest -ra -q -p no:cacheprovider --timeout=900 --continue-on-collection-errors dfols/tests",
                    "source_commits": [], "add_only": True},
